@@ -128,3 +128,27 @@ Print Assumptions C04_user_call_changes_nothing.
 Theorem C04_parameter_is_the_argument : forall x G n, LExprSem.lden [x] G (NLocal 0 n) = Ok x.
 Proof. intros x G n. reflexivity. Qed.
 Print Assumptions C04_parameter_is_the_argument.
+
+(* ---- definitions ---- *)
+Require Import Calc.Session Calc.ExprTop Calc.StmtTop Calc.StmtDef.
+
+(* a top-level definition f = (ps) -> body, as the compiled code runs it in a session, binds f and nothing else:
+   every other global keeps its value, nothing is written, no input is read *)
+Theorem C04_definition_binds_only_its_name : forall B t f ps body lc mc c m,
+  bready B mc c m -> m_fp m = [] -> ncs (mc_cs mc) + 1 < 4294967296 ->
+  strewrite t = Some (NAssign (NName f) (NFunction ps body lc)) ->
+  CompileWf.wfb (NAssign (NName f) (NFunction ps body lc)) = true ->
+  LExprSem.lpure (repeat VNil (List.length ps)) body = true -> lc = Z.of_nat (List.length ps) ->
+  bop_of_name f = None -> f <> "read"%string ->
+  snd (run_tree false mc t) = TRefused \/
+  let v' := mc_vm (fst (run_tree false mc t)) in
+  (forall g, g <> f -> gval (v_globals v') g = gval (v_globals (mc_vm mc)) g) /\
+  v_out v' = v_out (mc_vm mc) /\ v_in v' = v_in (mc_vm mc).
+Proof.
+  intros B t f ps body lc mc c m Hr Hfp Hbig Hst Hwb Hp Hlc Hb Hrd.
+  destruct (def_step B t f ps body lc mc c m Hr Hfp Hbig Hst Hwb Hp Hlc Hb Hrd) as [Ref|[c' [m' (_ & Hw & _)]]];
+    [left; exact Ref|right].
+  cbv zeta in Hw |- *. unfold wof, wbump, wglob in Hw. cbn [w_glob w_out w_in w_next] in Hw. injection Hw as Hg Ho Hi _.
+  split; [|split; assumption]. intros g Hne. rewrite Hg. apply gval_set_other. intros E. apply Hne. symmetry. exact E.
+Qed.
+Print Assumptions C04_definition_binds_only_its_name.
